@@ -1,185 +1,19 @@
 import PlzVerif.Base.Proto
 import PlzVerif.Model.RuleHash
+import PlzVerif.Model.RuleProto
 import PlzVerif.Model.Sha1
 import PlzVerif.Generated.C08
 /-!
-Line protocol for C08 / C07 (see harness/cmd/c08):
+Line protocol for C08 (see harness/rulehash/rulehash.go; the C07 ops live in Driver/C07.lean):
   rule <ctx+target tokens>                          -> hex sha1(ruleSer)
   pre  <ctx+target tokens>                          -> hex ruleSer
   pair <ctx> ; <target> ; [<ctx> ;] <target>        -> same | ne | eq <root-cause class>
-  perm <ctx+target tokens>                          -> as `rule` (C07: the harness feeds permuted encodings)
-  rehash <ctx+target tokens>                        -> post-build rule hash before / after UnprefixedHashes()
-  e2e <seed>                                        -> ok <number of targets of the generated repository>
 Tokens are `key=value`; byte strings hex ("-" empty), lists "," separated ("." empty), labels `sub|pkg|name`,
 maps `k:v`, groups `k:v1/v2` (".": no members).
 -/
-open PlzVerif PlzVerif.RuleHash PlzVerif.Proto
+open PlzVerif PlzVerif.RuleHash PlzVerif.Proto PlzVerif.RuleProto
 
 def F : Facts := Generated.C08.facts
-
-def unhx (s : String) : Option Bytes :=
-  if s = "-" then some [] else if s.isEmpty then none else bytesOfHex s
-
-def decList (s : String) : Option (List Bytes) :=
-  if s = "." then some [] else (s.splitOn ",").mapM unhx
-
-def decLabel (s : String) : Option Label :=
-  match s.splitOn "|" with
-  | [a, b, c] => do pure ⟨← unhx a, ← unhx b, ← unhx c⟩
-  | _ => none
-
-def decLabels (sep : String) (s : String) : Option (List Label) :=
-  if s = "." then some [] else (s.splitOn sep).mapM decLabel
-
-def decKVs (s : String) : Option (List (Bytes × Bytes)) :=
-  if s = "." then some [] else (s.splitOn ",").mapM fun p =>
-    match p.splitOn ":" with
-    | [k, v] => do pure (← unhx k, ← unhx v)
-    | _ => none
-
-def decGroups (s : String) : Option (List (Bytes × List Bytes)) :=
-  if s = "." then some [] else (s.splitOn ",").mapM fun p =>
-    match p.splitOn ":" with
-    | [k, v] => do pure (← unhx k, ← (if v = "." then some [] else (v.splitOn "/").mapM unhx))
-    | _ => none
-
-def decPGroups (s : String) : Option (List (Bytes × List Label)) :=
-  if s = "." then some [] else (s.splitOn ",").mapM fun p =>
-    match p.splitOn ":" with
-    | [k, v] => do pure (← unhx k, ← decLabels "/" v)
-    | _ => none
-
-def flagNames : List String := ["isBinary", "isSubrepo", "sandbox", "needsTransitiveDeps", "outputIsComplete", "stamp",
-  "isFilegroup", "isTextFile", "isRemoteFile", "isLocal", "srcListFiles", "exitOnError", "preBuild", "postBuild",
-  "testSandbox", "isTest"]
-
-def setFlag (t : Target) : String → Option Target
-  | "isBinary" => some { t with isBinary := true }
-  | "isSubrepo" => some { t with isSubrepo := true }
-  | "sandbox" => some { t with sandbox := true }
-  | "needsTransitiveDeps" => some { t with needsTransitiveDeps := true }
-  | "outputIsComplete" => some { t with outputIsComplete := true }
-  | "stamp" => some { t with stamp := true }
-  | "isFilegroup" => some { t with isFilegroup := true }
-  | "isTextFile" => some { t with isTextFile := true }
-  | "isRemoteFile" => some { t with isRemoteFile := true }
-  | "isLocal" => some { t with isLocal := true }
-  | "srcListFiles" => some { t with srcListFiles := true }
-  | "exitOnError" => some { t with exitOnError := true }
-  | "preBuild" => some { t with preBuild := true }
-  | "postBuild" => some { t with postBuild := true }
-  | "testSandbox" => some { t with testSandbox := true }
-  | "isTest" => some { t with isTest := true }
-  | _ => none
-
-def nodupS (l : List String) : Bool := match l with
-  | [] => true
-  | x :: r => !r.contains x && nodupS r
-
-/-- One `key=value` token applied to the context / target. `ctxOK`/`tgtOK`: which of the two may be set. -/
-def applyTok (ctxOK tgtOK : Bool) (st : Ctx × Target) (tok : String) : Option (Ctx × Target) :=
-  let (c, t) := st
-  match tok.splitOn "=" with
-  | [k, v] =>
-    let ctxKey := k = "runtime" || k = "config" || k = "fallback" || k = "environ"
-    if ctxKey then
-      if !ctxOK then none else
-      match k with
-      | "runtime" => if v = "1" then some ({ c with runtime := true }, t) else none
-      | "config" => (unhx v).map fun b => ({ c with config := b }, t)
-      | "fallback" => (unhx v).map fun b => ({ c with fallback := b }, t)
-      | _ => (decKVs v).map fun m => ({ c with environ := m }, t)
-    else if !tgtOK then none else
-    match k with
-    | "label" => (decLabel v).map fun x => (c, { t with label := x })
-    | "deps" => (decLabels "," v).map fun x => (c, { t with deps := x })
-    | "visibility" => (decLabels "," v).map fun x => (c, { t with visibility := x })
-    | "hashes" => (decList v).map fun x => (c, { t with hashes := x })
-    | "srcs" => (decList v).map fun x => (c, { t with srcs := x })
-    | "namedSrcs" => (decGroups v).map fun x => (c, { t with namedSrcs := x })
-    | "outs" => (decList v).map fun x => (c, { t with outs := x })
-    | "namedOuts" => (decGroups v).map fun x => (c, { t with namedOuts := x })
-    | "licences" => (decList v).map fun x => (c, { t with licences := x })
-    | "optionalOuts" => (decList v).map fun x => (c, { t with optionalOuts := x })
-    | "labels" => (decList v).map fun x => (c, { t with labels := x })
-    | "secrets" => (decList v).map fun x => (c, { t with secrets := x })
-    | "command" => (unhx v).map fun x => (c, { t with command := x })
-    | "commands" => (decKVs v).map fun x => (c, { t with commands := some x })
-    | "requires" => (decList v).map fun x => (c, { t with requires := x })
-    | "provides" => (decPGroups v).map fun x => (c, { t with provides := x })
-    | "passEnv" => (decList v).map fun x => (c, { t with passEnv := some x })
-    | "outputDirs" => (decList v).map fun x => (c, { t with outputDirs := x })
-    | "entryPoints" => (decKVs v).map fun x => (c, { t with entryPoints := x })
-    | "env" => (decKVs v).map fun x => (c, { t with env := x })
-    | "fileContent" => (unhx v).map fun x => (c, { t with fileContent := x })
-    | "data" => (decList v).map fun x => (c, { t with data := x })
-    | "namedData" => (decGroups v).map fun x => (c, { t with namedData := x })
-    | "testOutputs" => (decList v).map fun x => (c, { t with testOutputs := x })
-    | "testCommand" => (unhx v).map fun x => (c, { t with testCommand := x })
-    | "testCommands" => (decKVs v).map fun x => (c, { t with testCommands := some x })
-    | "testArgsPlaceholder" => (unhx v).map fun x => (c, { t with testArgsPlaceholder := x })
-    | "tools" => (decList v).map fun x => (c, { t with tools := x })
-    | "namedTools" => (decGroups v).map fun x => (c, { t with namedTools := x })
-    | "namedSecrets" => (decGroups v).map fun x => (c, { t with namedSecrets := x })
-    | "passUnsafeEnv" => (decList v).map fun x => (c, { t with passUnsafeEnv := some x })
-    | "flags" =>
-      let names := v.splitOn ","
-      if !nodupS names then none else (names.foldlM setFlag t).map fun t' => (c, t')
-    | _ => none
-  | _ => none
-
-def parseToks (ctxOK tgtOK : Bool) (c0 : Ctx) (toks : List String) : Option (Ctx × Target) :=
-  let keys := toks.map fun t => (t.splitOn "=").headD ""
-  if !nodupS keys then none else toks.foldlM (applyTok ctxOK tgtOK) (c0, {})
-
-/-! well-formedness: what the Add* API guarantees (mirrors `wellFormed` in the harness) -/
-
-def nodupB (l : List Bytes) : Bool := match l with
-  | [] => true
-  | x :: r => !r.contains x && nodupB r
-
-def hasDotSlash : Bytes → Bool
-  | 46 :: 47 :: _ => true
-  | _ => false
-
-def strictlySorted : List Bytes → Bool
-  | [] => true
-  | [x] => !x.isEmpty && !hasDotSlash x
-  | x :: y :: r => !x.isEmpty && !hasDotSlash x && bytesLt x y && strictlySorted (y :: r)
-
-def envNameOK (b : Bytes) : Bool := !b.isEmpty && !b.contains 61 && !b.contains 0
-
-def isSpace (b : UInt8) : Bool := b == 32 || b == 9 || b == 10 || b == 11 || b == 12 || b == 13 || b == 0x85 || b == 0xA0
-
-/-- `strings.TrimSpace(l) == l` for the byte strings the harness uses (ASCII white space at either end). -/
-def trimmed (b : Bytes) : Bool :=
-  match b, b.getLast? with
-  | x :: _, some y => !(x == 32 || x == 9 || x == 10 || x == 11 || x == 12 || x == 13) &&
-                      !(y == 32 || y == 9 || y == 10 || y == 11 || y == 12 || y == 13)
-  | _, _ => true
-
-def nodupL (l : List Label) : Bool := match l with
-  | [] => true
-  | x :: r => !r.contains x && nodupL r
-
-def wellFormed (c : Ctx) (t : Target) : Bool :=
-  strictlySorted t.outs && strictlySorted t.optionalOuts && strictlySorted t.testOutputs &&
-  nodupB t.srcs && nodupB t.secrets && nodupB (t.namedSrcs.map (·.1)) && nodupB (t.namedOuts.map (·.1)) &&
-  nodupB (t.namedData.map (·.1)) && nodupB (t.namedTools.map (·.1)) && nodupB (t.namedSecrets.map (·.1)) &&
-  nodupB (t.entryPoints.map (·.1)) && nodupB (t.env.map (·.1)) && nodupB (c.environ.map (·.1)) &&
-  t.namedOuts.all (fun g => strictlySorted g.2) && t.namedSrcs.all (fun g => nodupB g.2) &&
-  t.namedSecrets.all (fun g => nodupB g.2) && nodupB (t.provides.map (·.1)) &&
-  nodupL t.deps && !t.deps.contains t.label &&
-  (t.commands.map fun m => nodupB (m.map (·.1))).getD true &&
-  (t.testCommands.map fun m => nodupB (m.map (·.1))).getD true &&
-  (t.passEnv.map fun l => l.all envNameOK).getD true &&
-  c.environ.all (fun kv => envNameOK kv.1 && !kv.2.contains 0) &&
-  t.licences.all trimmed && nodupB t.licences &&
-  (t.isTest || (t.testOutputs.isEmpty && t.testCommand.isEmpty && t.testCommands.isNone &&
-                t.testArgsPlaceholder.isEmpty && !t.testSandbox)) &&
-  t.entryPoints.all (fun e => t.namedOuts.all fun g => e.1 != g.1) &&
-  (!t.isFilegroup || t.entryPoints.all (fun e => t.namedSrcs.all fun g => e.1 != g.1)) &&
-  t.label != ⟨[], [], []⟩ && t.label != ⟨[], [], originalName⟩
 
 def hexOut (b : Bytes) : String := if b.isEmpty then "-" else hexOfBytes b
 
@@ -222,21 +56,8 @@ def step (line : String) : String :=
         if c2.runtime = c.runtime && c2.config = c.config && c2.fallback = c.fallback then pairOut c c2 a b else "bad-op"
       | _, _, _, _ => "bad-op"
     | _ => "bad-op"
-  | ["e2e", seed] =>
-    -- end-to-end determinism is decided on the real binary alone; the model only knows the repository's size
-    match seed.toNat? with
-    | some n => if toString n = seed then s!"ok {(3 + n % 4) * 4}" else "bad-op"
-    | none => "bad-op"
   | op :: toks =>
-    if op = "rehash" then
-      match parseToks true true {} toks with
-      | some (c, t) =>
-        if !wellFormed c t then "bad-op"
-        else
-          let c := { c with runtime := false }
-          hexOfBytes (Sha1.sha1 (postBuildSer F c t t)) ++ " " ++ hexOfBytes (Sha1.sha1 (postBuildSer F c t (afterHashCheck t)))
-      | none => "bad-op"
-    else if op = "rule" || op = "pre" || op = "perm" then
+    if op = "rule" || op = "pre" then
       match parseToks true true {} toks with
       | some (c, t) =>
         if !wellFormed c t then "bad-op"
